@@ -71,7 +71,7 @@ func (v *VerifSendState) ApplyPlan(bits []bool, forceFrom uint32) {
 	v.s.plan = &resumePlan{bitmap: bm, forceSendFrom: forceFrom, totalChunks: v.s.totalChunks}
 	v.s.mu.Unlock()
 }
-func (v *VerifSendState) VerifyBegin() { v.s.mu.Lock(); v.s.verifyPending = true; v.s.mu.Unlock() }
+func (v *VerifSendState) VerifyBegin() bool { return v.s.beginVerify() }
 func (v *VerifSendState) Verdict(mismatch bool, c uint32) {
 	v.s.mu.Lock()
 	if mismatch {
